@@ -1,31 +1,41 @@
 #!/usr/bin/env python3
-"""run every stored mutant against the check(s) of its property: apply to /repo, check, undo.  Prints a detection table.
-   tools/seeded.py [name-prefix]"""
-import sys, os, json, subprocess, glob
+"""run every stored mutant against the check(s) of its property on a scratch copy of the current sources (never touches /repo).
+   tools/seeded.py [name-prefix]     prints a detection table; exit 1 if a mutant is not reported"""
+import sys, os, json, subprocess, glob, tempfile, shutil
+from concurrent.futures import ThreadPoolExecutor
 HERE = os.path.dirname(os.path.dirname(os.path.abspath(__file__)))
-rows = []
 pref = sys.argv[1] if len(sys.argv) > 1 else ''
-dirty = subprocess.run(['git', '-C', '/repo', 'status', '--porcelain', '--untracked-files=no'], stdout=subprocess.PIPE).stdout.decode().strip()
-if dirty:
-    print('refusing: /repo has uncommitted changes'); sys.exit(2)
-for d in sorted(glob.glob(os.path.join(HERE, 'seeded', '*'))):
+
+
+def one(d):
     name = os.path.basename(d)
-    if not name.startswith(pref):
-        continue
     meta = json.load(open(os.path.join(d, 'meta.json')))
     props = [meta['property']] + meta.get('also_check', [])
+    tmp = tempfile.mkdtemp(prefix='cppcms-seeded-')
     try:
-        r = subprocess.run(['git', '-C', '/repo', 'apply', os.path.join(d, 'patch.diff')])
+        for s in ('src', 'private', 'cppcms', 'booster'):
+            shutil.copytree(os.path.join('/repo', s), os.path.join(tmp, s), symlinks=True)
+        r = subprocess.run(['patch', '-p1', '-s', '-d', tmp, '-i', os.path.join(d, 'patch.diff')], stdout=subprocess.PIPE, stderr=subprocess.STDOUT)
         if r.returncode != 0:
-            rows.append((name, props, 'patch does not apply')); continue
-        res = []
+            return name, 'patch does not apply', False
+        env = dict(os.environ, VERIF_REPO=tmp, VERIF_EVIDENCE_DIR=os.path.join(tmp, 'ev'))
+        res, hit = [], False
         for p in props:
-            o = subprocess.run([os.path.join(HERE, 'check'), p], stdout=subprocess.PIPE, stderr=subprocess.STDOUT).stdout.decode()
+            o = subprocess.run([os.path.join(HERE, 'check'), p], env=env, stdout=subprocess.PIPE, stderr=subprocess.STDOUT).stdout.decode(errors='replace')
             viol = [l for l in o.splitlines() if ': C' in l and '[' in l][:2]
             code = 'VIOLATION' if 'VIOLATION property=' in o else ('BROKEN' if 'ANALYSIS-BROKEN' in o else 'missed')
+            hit = hit or code == 'VIOLATION'
             res.append('%s:%s %s' % (p, code, ' | '.join(v.split(': ', 1)[1][:110] for v in viol)))
-        rows.append((name, props, ' ; '.join(res)))
+        return name, ' ; '.join(res), hit
     finally:
-        subprocess.run(['git', '-C', '/repo', 'checkout', '--', '.'])
-for r in rows:
-    print('%-8s %s' % (r[0], r[2]))
+        shutil.rmtree(tmp, ignore_errors=True)
+
+
+dirs = [d for d in sorted(glob.glob(os.path.join(HERE, 'seeded', '*'))) if os.path.basename(d).startswith(pref) and os.path.exists(os.path.join(d, 'meta.json'))]
+with ThreadPoolExecutor(max_workers=6) as ex:
+    rows = list(ex.map(one, dirs))
+for name, txt, hit in rows:
+    print('%-8s %s' % (name, txt))
+missed = [n for n, _, h in rows if not h]
+print('%d of %d reported%s' % (len(rows) - len(missed), len(rows), ('; NOT reported: %s' % missed) if missed else ''))
+sys.exit(1 if missed else 0)
